@@ -7,7 +7,10 @@ EXPLANATION = ("static analysis: time_slice of both classes is interpreted abstr
                "window [F, T] against a canonical timeline; the result graph is a recording object and must receive, "
                "per interval meeting the window and in stored order, exactly add_interaction(u, v, max(a,F), "
                "min(b,T)+1); ValueError iff T < F; T defaults to F; class of the source; node attributes copied for "
-               "the result's nodes; no write to the source")
+               "the result's nodes; no write to the source; the functional form dynetx.time_slice is interpreted through to the "
+               "method (a bound that is the literal 0 included); at graph level (4-node symbolic graphs, several pairs at once, "
+               "six windows) the slice holds exactly the presence of the source inside the window, its nodes are the endpoints, "
+               "and node ids are never ordered; no state shared between calls or graphs (P7)")
 
 
 def run(repo: Repo, tier, rep: Report):
